@@ -52,6 +52,12 @@ func init() {
 
 	var du *durationpb.Duration
 	DefaultDurationValue = pref.ValueOfMessage(du.ProtoReflect())
+
+	var fr *tableaupb.Fraction
+	DefaultFractionValue = pref.ValueOfMessage(fr.ProtoReflect())
+
+	var cmp *tableaupb.Comparator
+	DefaultComparatorValue = pref.ValueOfMessage(cmp.ProtoReflect())
 }
 
 // ParseFieldValue parses field value by FieldDescriptor. It can parse following
